@@ -412,6 +412,12 @@ pub fn run_c11(prop: &str, seed: u64, n: usize, rep: &mut Report) {
             let r = run_kind(inp.fmt, &inp.data, k, &param, None);
             let mut vs = vec![];
             if r.verdict == Verdict::Panic {
+                // (a panic that the same input WITHOUT what follows the payload / the file shows as well is C07's text)
+                let alone = run_kind(inp.fmt, &inp.data[..end.min(inp.data.len())], k, &param, None);
+                if alone.verdict == Verdict::Panic {
+                    rep.drift(format!("(C07 clause seen while checking {}) {}: panic with and without trailing bytes: {}", prop, inp.name, r.msg), json!({"reader": k}));
+                    continue;
+                }
                 vs.push(format!("panic: {}", r.msg));
             }
             match (inp.payload_len, &e) {
@@ -482,7 +488,7 @@ pub fn replay_value(v: &Value, prop: &str, rep: &mut Report) {
     let r0 = run_kind(fmt, &data, "slice", &[], None);
     let r = run_kind(fmt, &data, &kind, &param, None);
     rep.eval(1, true);
-    let mut bad = r.verdict == Verdict::Panic || (r.verdict == Verdict::Ok) != (r0.verdict == Verdict::Ok) || (r.verdict == Verdict::Ok && (r.out != r0.out || r.consumed != r0.consumed));
+    let mut bad = (r.verdict == Verdict::Panic && r0.verdict != Verdict::Panic) || (r.verdict != Verdict::Panic && r0.verdict != Verdict::Panic && (r.verdict == Verdict::Ok) != (r0.verdict == Verdict::Ok) || (r.verdict == Verdict::Ok && (r.out != r0.out || r.consumed != r0.consumed)));
     if let Some(pl) = v["payload_len"].as_u64() {
         bad = bad || r.verdict != Verdict::Ok || r.consumed != pl as usize;
     }
